@@ -142,9 +142,7 @@ pub fn run(tier: Tier) -> i32 {
         let maxc = if variadic { 4 } else { declared + 2 };
         for c in 0..=maxc {
             work.push((name.clone(), c, false));
-            if tier == Tier::Thorough {
-                work.push((name.clone(), c, true));
-            }
+            work.push((name.clone(), c, true));
         }
     }
     let mut st = par_sweep(work, |(name, argc, second), st| {
